@@ -136,7 +136,7 @@ fn end(what: &str, id0: u32, tolerated: &[u32], max_leaked_blocks: usize) -> R {
     tk::clone_panic_at(0);
     tk::cb_panic_at(0);
     let f = tk::take_findings();
-    ensure!(f.is_empty(), "C07", "faults", "{}: {}", what, f.join("; "));
+    ensure!(f.is_empty(), "C07,C01", "faults", "{}: {}", what, f.join("; "));
     let mut alive = Vec::new();
     for id in id0..tk::next_id() {
         match tk::state(id) {
@@ -148,7 +148,7 @@ fn end(what: &str, id0: u32, tolerated: &[u32], max_leaked_blocks: usize) -> R {
     for id in &alive {
         ensure!(
             tolerated.contains(id),
-            "C07",
+            "C07,C01",
             "faults",
             "{}: tracked value id={} was neither destroyed nor part of a tolerated half-built allocation",
             what,
@@ -158,7 +158,7 @@ fn end(what: &str, id0: u32, tolerated: &[u32], max_leaked_blocks: usize) -> R {
     if shadow::active() {
         if let Some(x) = shadow::take_findings().first() {
             return viol(
-                "C07",
+                "C07,C01",
                 "faults",
                 format!("{}: allocator monitor: {:?}", what, x),
             );
@@ -166,7 +166,7 @@ fn end(what: &str, id0: u32, tolerated: &[u32], max_leaked_blocks: usize) -> R {
         let lb = shadow::live_blocks();
         ensure!(
             lb.len() <= max_leaked_blocks,
-            "C07",
+            "C07,C01",
             "faults",
             "{}: {} blocks left behind (at most {} tolerated): {:x?}",
             what,
@@ -253,6 +253,11 @@ fn check_built(what: &str, b: &Built, ids: &[u32]) -> R {
 }
 
 fn check_built_valid(what: &str, b: &Built, ids: &[u32]) -> R {
+    let tags = if let Built::Thin(_) = b {
+        "C07,C10,C01"
+    } else {
+        "C07,C01"
+    };
     let s: &[T8] = match b {
         Built::Hs(a) => &a.slice,
         Built::Thin(t) => {
@@ -272,7 +277,7 @@ fn check_built_valid(what: &str, b: &Built, ids: &[u32]) -> R {
     for (k, e) in s.iter().enumerate() {
         if let Err(m) = e.check() {
             return viol(
-                "C07",
+                tags,
                 "faults",
                 format!(
                     "{}: slot {} of the result was never written or is damaged: {}",
@@ -282,7 +287,7 @@ fn check_built_valid(what: &str, b: &Built, ids: &[u32]) -> R {
         }
         ensure!(
             ids.contains(&e.id()) && !seen.contains(&e.id()),
-            "C07",
+            tags,
             "faults",
             "{}: slot {} holds a value the iterator did not yield (or holds it twice)",
             what,
@@ -540,7 +545,7 @@ pub fn clone_panics(site: usize, co_kind: usize, st: &mut FStats) -> R {
         };
         ensure!(
             ccount == survivors_on_orig,
-            "C07,C04",
+            "C07,C04,C08",
             "faults",
             "{}: the original allocation reports count {} but {} owning handles survive",
             what,
@@ -551,7 +556,7 @@ pub fn clone_panics(site: usize, co_kind: usize, st: &mut FStats) -> R {
             if let Some(x) = &x_opt {
                 ensure!(
                     x.heap_ptr() as usize == block && x.ids() == orig && x.check().is_ok(),
-                    "C07",
+                    "C07,C08",
                     "faults",
                     "{}: the calling handle no longer refers to the intact original",
                     what
@@ -560,7 +565,7 @@ pub fn clone_panics(site: usize, co_kind: usize, st: &mut FStats) -> R {
             if let Some(o) = &off {
                 ensure!(
                     o.ids() == orig && o.check().is_ok() && OffsetArc::strong_count(o) == 2,
-                    "C07",
+                    "C07,C08",
                     "faults",
                     "{}: the OffsetArc no longer refers to the intact original",
                     what
